@@ -14,7 +14,7 @@ RULE = ("random cost tables from 10 value classes x beta forms (scalar int/float
         "hash of (table bytes, beta bytes, mode)")
 ASSUMPTIONS = ["oracle: brute force over all K^T sequences (K^T<=60000) else an independent forward DP",
                "tolerance 4(T+2)eps(sum_i max_k|C_ik| + sum beta); 0 for integer-valued tables"]
-SHARD_TIMEOUT = {"quick": 600, "thorough": 3000}
+SHARD_TIMEOUT = {"quick": 300, "thorough": 3000}
 
 CLASSES = ["gauss", "smallint", "allequal", "mixedmag", "negative", "stayjump_tie", "T1", "K1", "dyadic", "huge_spread", "tiny_units",
            "int_table", "f32_table"]   # + "large K" (K in {257..1100}) drawn separately
